@@ -333,7 +333,7 @@ def stages_doc(n):
     return doc
 
 
-def backend_var_doc(backend, how, key, value, needs=()):
+def backend_var_doc(backend, how, key, value, needs=(), peer=False):
     """Options that only the legacy format knows for a backend (Dosini.options_for_backend: the simulator's sim_*)
     are carried as component variables. The backend is named literally / through a component variable / through a
     global variable; the second component (default backend) carries the same variable."""
@@ -351,6 +351,11 @@ def backend_var_doc(backend, how, key, value, needs=()):
         set_path(target, tuple(path.split('.')), v)
     target['variables'][key] = value
     doc['components'][1].setdefault('variables', {})[key] = value
+    if peer:
+        # the component of the LATER stage names the same backend literally
+        set_path(doc['components'][1], ('resourceManager', 'config', 'backend'), backend)
+        for path, v in needs:
+            set_path(doc['components'][1], tuple(path.split('.')), v)
     return doc
 
 
